@@ -350,6 +350,10 @@ class Lib:
     def rng_method(self, E, ref, d, name, args, kwargs, st):
         _used(E, "RandomState model (uniform stream with position; get_state/set_state)")
         stream = d.stream
+        if getattr(self, "quantified_stream_bounds", False) and name in ("random_sample", "random", "rand"):
+            x = z3.Int("sx")
+            lo_open = getattr(self, "open_unit_interval", False)
+            st.assume(z3.ForAll([x], z3.And(stream(x) > 0 if lo_open else stream(x) >= 0, stream(x) < 1)))
         if name in ("random_sample", "random", "rand", "uniform") and name != "uniform":
             size = args[0] if args else kwargs.get("size")
             if size is None:
@@ -361,6 +365,18 @@ class Lib:
             if isinstance(size, tuple):
                 if len(size) == 1:
                     size = size[0]
+                elif len(size) == 2:
+                    n0, n1 = to_int(size[0]), to_int(size[1])
+                    pos = d.pos
+                    st.put(ref, RngData(stream, z3.simplify(pos + n0 * n1), d.aux))
+                    st.events.append(("draw", ref.id, pos, n0 * n1))
+                    lo_open = getattr(self, "open_unit_interval", False)
+
+                    def sel2(i, j2, pos=pos):
+                        r = stream(pos + i * n1 + j2)
+                        E.axiom(z3.And(r > 0 if lo_open else r >= 0, r < 1))
+                        return r
+                    return st.alloc(ArrData((n0, n1), sel2, "f"))
                 else:
                     raise Unsupported("rng draw of nd shape")
             n = to_int(size)
@@ -368,11 +384,34 @@ class Lib:
             st.put(ref, RngData(stream, z3.simplify(pos + n), d.aux))
             st.events.append(("draw", ref.id, pos, n))
 
+            lo_open = getattr(self, "open_unit_interval", False)
+
             def sel(i, pos=pos):
                 r = stream(pos + i)
-                E.axiom(z3.And(r >= 0, r < 1))     # instance of: every uniform draw lies in [0,1)
+                E.axiom(z3.And(r > 0 if lo_open else r >= 0, r < 1))     # instance of: every uniform draw lies in [0,1)
                 return r
             return st.alloc(ArrData((n,), sel, "f"))
+        if name == "choice" and kwargs.get("replace", args[2] if len(args) > 2 else True) is False and args and is_int_like(args[0]):
+            # RandomState.choice(n, size=k, p=p, replace=False): k pairwise distinct positions in [0,n), each with p > 0
+            # (numpy raises if fewer than k entries of p are non-zero: that path ends the call)
+            n = to_int(args[0])
+            size = kwargs.get("size", args[1] if len(args) > 1 else None)
+            pa = kwargs.get("p", args[3] if len(args) > 3 else None)
+            if size is not None and is_int_like(size):
+                k = to_int(size)
+                f = fresh_fn("choice", I, I)
+                t, u = z3.Ints("ct cu")
+                st.assume(z3.ForAll([t], z3.Implies(z3.And(0 <= t, t < k), z3.And(0 <= f(t), f(t) < n))))
+                st.assume(z3.ForAll([t, u], z3.Implies(z3.And(0 <= t, t < u, u < k), f(t) != f(u))))
+                parr = as_array(pa, st) if isinstance(pa, Ref) else None
+                if parr is not None:
+                    pv = to_real(parr.sel(f(t)))
+                    st.assume(z3.ForAll([t], z3.Implies(z3.And(0 <= t, t < k), z3.And(z3.Not(pv[0]), pv[1] > 0))))
+                adv = fresh("adv", I)
+                st.assume(adv >= 0)
+                st.put(ref, RngData(stream, d.pos + adv, d.aux + 1))
+                st.events.append(("draw-other", ref.id, name))
+                return st.alloc(ArrData((k,), lambda i: f(i), "i"))
         if name in ("normal", "randn", "standard_normal", "randint", "choice", "permutation", "shuffle", "multinomial", "dirichlet", "beta", "uniform"):
             adv = fresh("adv", I)
             st.assume(adv >= 1)
@@ -468,6 +507,13 @@ def _select(vals, j):
 
 def _broadcast(a, b):
     if a.ndim == b.ndim:
+        one_a = [_is_one(x) for x in a.shape]
+        one_b = [_is_one(x) for x in b.shape]
+        if any(one_a) or any(one_b):
+            shape = tuple(y if oa and not ob else x for x, y, oa, ob in zip(a.shape, b.shape, one_a, one_b))
+            fa = (lambda *i: a.sel(*[z3.IntVal(0) if o else t for t, o in zip(i, one_a)]))
+            fb = (lambda *i: b.sel(*[z3.IntVal(0) if o else t for t, o in zip(i, one_b)]))
+            return shape, fa, fb
         return a.shape, a.sel, b.sel
     if a.ndim == 0:
         return b.shape, (lambda *i: a.sel()), b.sel
@@ -830,6 +876,22 @@ def register_builtins(L):
         a = as_array(v, st) if isinstance(v, Ref) else None
         if a is None or "axis" in kw or len(args) > 1:
             return Opaque("sum") if a is None else E.unknown_call("np.sum(axis)", [], {}, st, node)
+        if a.kind == "f" and a.ndim == 1 and getattr(a, "scatter", None) is None and not getattr(a, "zero_one", False):
+            # sum of the non-NaN entries of a real array: S with  (all non-NaN entries >= 0)  ->
+            #   S >= every non-NaN entry, S >= 0, and S = 0 iff all non-NaN entries are 0
+            _used(E, "np.nansum of a non-negative array (S bounds every entry; S=0 iff all entries are 0)")
+            S = fresh("nansum", R)
+            j = z3.Int("sj")
+            n = to_int(a.shape[0])
+            en, ev = to_real(a.sel(j))
+            rng = z3.And(0 <= j, j < n)
+            nonneg = z3.ForAll([j], z3.Implies(z3.And(rng, z3.Not(en)), ev >= 0))
+            st.assume(z3.Implies(nonneg, z3.And(S >= 0, z3.ForAll([j], z3.Implies(z3.And(rng, z3.Not(en)), ev <= S)),
+                                                (S == 0) == z3.ForAll([j], z3.Implies(z3.And(rng, z3.Not(en)), ev == 0)))))
+            if not unparse(node.func).endswith("nansum"):
+                anynan = z3.Exists([j], z3.And(rng, en))
+                return mk_fv(anynan, S)
+            return S
         return count_true(E, a, st)
 
     @fn("np.any", "np.all")
@@ -858,6 +920,110 @@ def register_builtins(L):
             return res
         return (res,)
 
+    @fn("np.nanmax", "np.nanmin", "np.max", "np.min", "np.amax", "np.amin")
+    def _np_nanmax(E, st, args, kw, node):
+        """max/min over all entries (axis=None) or along axis 1 of a 2-D array, NaN ignored for the nan* variants.
+        Contract: the result is attained at some non-NaN entry and bounds all non-NaN entries; if every entry (of the
+        row) is NaN the result is NaN. (np.max/np.min: NaN if any entry is NaN.)"""
+        name = unparse(node.func).split(".")[-1]
+        _used(E, f"np.{name} (attained, bounds every non-NaN entry; all-NaN gives NaN)")
+        a = as_array(args[0], st) if isinstance(args[0], Ref) else None
+        if a is None or a.kind not in ("f", "i"):
+            return Opaque(name)
+        is_max = "max" in name
+        ignore_nan = name.startswith("nan")
+        axis = kw.get("axis", args[1] if len(args) > 1 else None)
+        keep = kw.get("keepdims", False) is True
+        le = (lambda x, y: x <= y) if is_max else (lambda x, y: x >= y)
+
+        def spec(n_idx, entry, mnan, mval):
+            """constraints for one reduction over index set described by (vars, range, entry(vars))"""
+            vs, rng = n_idx
+            en, ev = to_real(entry(*vs))
+            any_ok = z3.Exists(vs, z3.And(rng, z3.Not(en)))
+            all_nan = z3.Not(any_ok)
+            cons = []
+            if ignore_nan:
+                cons.append(mnan == all_nan)
+            else:
+                cons.append(mnan == z3.Exists(vs, z3.And(rng, en)))
+            cons.append(z3.Implies(z3.Not(mnan), z3.And(z3.Exists(vs, z3.And(rng, z3.Not(en), ev == mval)),
+                                                        z3.ForAll(vs, z3.Implies(z3.And(rng, z3.Not(en)), le(ev, mval))))))
+            return cons
+        if axis is None:
+            vs = [z3.Int(f"m{i}") for i in range(a.ndim)]
+            rng = z3.And(*[z3.And(0 <= v, v < to_int(sh)) for v, sh in zip(vs, a.shape)])
+            mnan, mval = fresh("mx_nan", B), fresh("mx", R)
+            for c in spec((vs, rng), a.sel, mnan, mval):
+                st.assume(c)
+            res = mk_fv(mnan, mval)
+            if keep:
+                return st.alloc(ArrData(tuple(1 for _ in a.shape), lambda *i: res, "f"))
+            return res
+        if a.ndim == 2 and axis in (1, -1):
+            fn_nan, fn_val = fresh_fn("rowmx_nan", I, B), fresh_fn("rowmx", I, R)
+            i, j = z3.Ints("ri rj")
+            en, ev = to_real(a.sel(i, j))
+            rng = z3.And(0 <= j, j < to_int(a.shape[1]))
+            rows = z3.And(0 <= i, i < to_int(a.shape[0]))
+            any_ok = z3.Exists([j], z3.And(rng, z3.Not(en)))
+            st.assume(z3.ForAll([i], z3.Implies(rows, fn_nan(i) == (z3.Not(any_ok) if ignore_nan else z3.Exists([j], z3.And(rng, en))))))
+            st.assume(z3.ForAll([i], z3.Implies(z3.And(rows, z3.Not(fn_nan(i))),
+                                                z3.And(z3.Exists([j], z3.And(rng, z3.Not(en), ev == fn_val(i))),
+                                                       z3.ForAll([j], z3.Implies(z3.And(rng, z3.Not(en)), le(ev, fn_val(i))))))))
+            if keep:
+                return st.alloc(ArrData((a.shape[0], 1), lambda r, c: mk_fv(fn_nan(r), fn_val(r)), "f"))
+            return st.alloc(ArrData((a.shape[0],), lambda r: mk_fv(fn_nan(r), fn_val(r)), "f"))
+        return Opaque(name)
+
+    @fn("np.argmax", "np.argmin")
+    def _np_argmax(E, st, args, kw, node):
+        """position of the first maximal (minimal) entry of a NaN-free array (flattened, or per row for axis=1)"""
+        name = unparse(node.func).split(".")[-1]
+        _used(E, f"np.{name} (first extremal position; entries assumed NaN-free)")
+        a = as_array(args[0], st) if isinstance(args[0], Ref) else None
+        if a is None or a.kind not in ("f", "i", "b"):
+            return Opaque(name)
+        is_max = name == "argmax"
+        axis = kw.get("axis", args[1] if len(args) > 1 else None)
+        ge = (lambda x, y: x >= y) if is_max else (lambda x, y: x <= y)
+        gt = (lambda x, y: x > y) if is_max else (lambda x, y: x < y)
+        if a.ndim == 1 and axis in (None, 0, -1):
+            r = fresh("amax", I)
+            j = z3.Int("aj")
+            n = to_int(a.shape[0])
+            rv = to_real(a.sel(r))[1]
+            jv = to_real(a.sel(j))[1]
+            st.assume(z3.Implies(n >= 1, z3.And(0 <= r, r < n,
+                                                z3.ForAll([j], z3.Implies(z3.And(0 <= j, j < n), ge(rv, jv))),
+                                                z3.ForAll([j], z3.Implies(z3.And(0 <= j, j < r), gt(rv, jv))))))
+            E.oblige("argmax.nonempty", st, n >= 1) if getattr(E, "check_lib_pre", False) else None
+            return r
+        if a.ndim == 2 and axis in (1, -1):
+            f = fresh_fn("rowamax", I, I)
+            i, j = z3.Ints("ai aj")
+            m = to_int(a.shape[1])
+            rv = to_real(a.sel(i, f(i)))[1]
+            jv = to_real(a.sel(i, j))[1]
+            st.assume(z3.ForAll([i], z3.Implies(z3.And(0 <= i, i < to_int(a.shape[0]), m >= 1),
+                                                z3.And(0 <= f(i), f(i) < m,
+                                                       z3.ForAll([j], z3.Implies(z3.And(0 <= j, j < m), ge(rv, jv))),
+                                                       z3.ForAll([j], z3.Implies(z3.And(0 <= j, j < f(i)), gt(rv, jv)))))))
+            return st.alloc(ArrData((a.shape[0],), lambda r: f(r), "i"))
+        return Opaque(name)
+
+    @fn("np.repeat")
+    def _np_repeat(E, st, args, kw, node):
+        # np.repeat([u], k, axis=0): k copies of the row u
+        v = args[0]
+        l = list_of(v, st)
+        if l is not None and isinstance(l.n, int) and l.n == 1 and kw.get("axis") == 0:
+            row = as_array(l.sel(0), st) if isinstance(l.sel(0), Ref) else None
+            if row is not None and row.ndim == 1:
+                k = to_int(args[1])
+                return st.alloc(ArrData((k, row.shape[0]), lambda i, j, row=row: row.sel(j), row.kind))
+        return Opaque("repeat")
+
     @fn("np.isscalar")
     def _np_isscalar(E, st, args, kw, node):
         return is_scalar(args[0])
@@ -878,6 +1044,13 @@ def register_builtins(L):
 
 def count_true(E, a, st):
     """cnt over all entries of a boolean (or 0/1 real) array; returned as Int (bool arrays) or Real."""
+    if a.ndim == 1 and a.kind == "b" and getattr(a, "scatter", None) is None:
+        n = to_int(a.shape[0])
+        A = mask_array(a.sel)
+        for f in cnt_lemma_instances(A, n):
+            st.assume(f)
+        E.last_count = (A, n)
+        return CNT(A, n)
     idx = [z3.Int(f"c{i}") for i in range(a.ndim)]
     rng = z3.And(*[z3.And(0 <= i, i < to_int(s)) for i, s in zip(idx, a.shape)])
     total = to_int(a.shape[0])
@@ -949,3 +1122,28 @@ def _dtype_kind(dt, default):
         # narrow machine types: 'integers are mathematical / floats are reals' no longer describes the code
         raise Unsupported(f"narrow dtype {n}: machine arithmetic is outside the encoding")
     return default
+
+
+# ------------------------------------------------------------------------------ counting (spec function CNT with lemmas)
+BoolArr = z3.ArraySort(I, B)
+CNT = z3.Function("CNT", BoolArr, I, I)      # CNT(A, n) = number of true entries among A[0..n)
+
+
+def cnt_lemma_instances(A, n):
+    """instances of the lemmas proved by induction in contracts/lemmas.py (unit 'lemmas.cnt')"""
+    j = z3.Int("jc")
+    return [z3.And(CNT(A, n) >= 0, z3.Implies(n >= 0, CNT(A, n) <= n)),
+            z3.Implies(CNT(A, n) > 0, z3.Exists([j], z3.And(0 <= j, j < n, A[j]))),
+            z3.Implies(z3.And(n >= 0, z3.ForAll([j], z3.Implies(z3.And(0 <= j, j < n), A[j]))), CNT(A, n) == n),
+            z3.Implies(z3.And(n >= 0, CNT(A, n) == n), z3.ForAll([j], z3.Implies(z3.And(0 <= j, j < n), A[j]))),
+            z3.Implies(z3.Exists([j], z3.And(0 <= j, j < n, A[j])), CNT(A, n) > 0)]
+
+
+def cnt_point_update(A, i, n):
+    """A[i] true, 0<=i<n  ->  CNT(Store(A,i,False), n) = CNT(A,n) - 1"""
+    return z3.Implies(z3.And(0 <= i, i < n, A[i]), CNT(z3.Store(A, i, False), n) == CNT(A, n) - 1)
+
+
+def mask_array(sel):
+    j = z3.Int("jm")
+    return z3.Lambda([j], z3bool(sel(j)))
